@@ -64,6 +64,10 @@ fn quoted(name: &str) -> String {
 
 /// text converting a term of the sort the real code uses (Bool for 1 bit) into the all-BitVec
 /// sorts of RefSmt
+pub fn to_ref_pub(term: &str, t: Ty) -> String {
+    to_ref(term, t)
+}
+
 fn to_ref(term: &str, t: Ty) -> String {
     match t {
         Ty::BV(1) => format!("(ite {term} #b1 #b0)"),
